@@ -225,7 +225,7 @@ HV_HINT = """proof {
 
 
 def build(repo):
-    U = Unit("implied", ["C04"], desc="implied block of a justification", uses=T.USES)
+    U = Unit("implied", ["C04", "C02"], desc="implied block of a justification", uses=T.USES)
     U.repo = repo
     T.add_base_types(U)
     Q.add_signers(U)
